@@ -77,18 +77,26 @@ def _tab_to_cfg(tab):
     return t
 
 
+# (in-process rewrites, fresh-process rewrites) per generation group of FontCycleGen, Focus = "cover"
+_GROUP_WRITES = {"layout": (4, 2), "shapes": (3, 2), "glyphs": (2, 1), "index": (2, 1), "big": (2, 1),
+                 "onefactor": (2, 1), "sweep": (0, 0)}
+
+
 def _built_cases(ctx, n, glyph_counts, first_id, again, fresh, label, focus="random"):
-    """Configurations from FontCycleGen: n random ones (-simulate), or, for the exhaustive focus modes
-    ("layout", "onefactor"), every configuration of the focus (n is ignored)."""
+    """Configurations from FontCycleGen: n random ones (-simulate, Focus "random"), or every configuration of the
+    exhaustive cover (Focus "cover": groups layout, shapes, glyphs, index, big, onefactor, sweep; n is ignored)."""
     cfg = open(os.path.join(vlib.SPEC_DIR, "FontCycleGen.cfg")).read()
     cfg = re.sub(r"GlyphCounts = \{[^}]*\}", "GlyphCounts = {%s}" % ", ".join(str(g) for g in glyph_counts), cfg)
     cfg = cfg.replace('Focus = "random"', 'Focus = "%s"' % focus)
+    if not ctx.quick():
+        cfg = cfg.replace("IdxLens = {254, 255, 256, 257}", "IdxLens = {254, 255, 256, 257, 65534, 65535, 65536, 65537}")
+        cfg = cfg.replace("Dense = FALSE", "Dense = TRUE")
     if focus == "random":
-        res = ctx.tlc("FontCycleGen", cfg="FCGen.cfg", files={"FCGen.cfg": cfg}, workers=1, simulate=n, depth=40,
+        res = ctx.tlc("FontCycleGen", cfg="FCGen.cfg", files={"FCGen.cfg": cfg}, workers=1, simulate=n, depth=45,
                       timeout=600, label=label)
     else:
-        res = ctx.tlc("FontCycleGen", cfg="FCGen.cfg", files={"FCGen.cfg": cfg}, workers=2, timeout=600, label=label)
-        n = 15
+        res = ctx.tlc("FontCycleGen", cfg="FCGen.cfg", files={"FCGen.cfg": cfg}, workers=4, timeout=600, label=label)
+        n = 3000
     if res.violated:
         raise vlib.Infra("FontCycleGen violated %s: the configuration generator is wrong" % res.violated)
     if len(res.cases) < n:
@@ -99,8 +107,9 @@ def _built_cases(ctx, n, glyph_counts, first_id, again, fresh, label, focus="ran
     out = []
     for i, c in enumerate(cases):
         dom = c.pop("dom")
+        ag, fr = _GROUP_WRITES.get(c.get("group"), (again, fresh))
         out.append({"id": first_id + i, "src": "built", "label": "in Dom" if dom else "outside Dom", "cfg": c,
-                    "again": again, "fresh": fresh})
+                    "again": ag, "fresh": fr})
     return out
 
 
@@ -335,12 +344,16 @@ def run(ctx):
                          "FontCycleGen configurations (simulate)")
     large = _built_cases(ctx, ctx.pick(4, 14), ctx.pick([2000], [2000, 65535]), 100001, 1, 1,
                          "FontCycleGen configurations, large glyph counts (simulate)")
-    # every run: all layout-table kinds with rich script lists (several scripts, 0..5 explicit language systems,
-    # features sharing a tag, lookups shared by features), written 1+4 times here and 2 times in fresh processes;
-    # and every scalar field taken through its domain including the extremes, one at a time
-    shapes = _built_cases(ctx, 0, [30], 130001, 3, 2, "FontCycleGen focus shapes (exhaustive)", focus="shapes")
-    layout = _built_cases(ctx, 0, [30], 110001, 4, 2, "FontCycleGen focus layout (exhaustive)", focus="layout")
-    onef = _built_cases(ctx, 0, [30], 120001, 2, 1, "FontCycleGen focus onefactor (exhaustive)", focus="onefactor")
+    # every run, exhaustively (FontCycleGen Focus "cover"): all layout-table kinds with rich script lists; glyf table
+    # sizes x raw-table layouts with a multi-subtable cmap; composites with nil / empty / even / odd instructions;
+    # CFF INDEX data lengths around the offset-size switches; tables beyond the parser's 1024-byte window; every scalar
+    # through its domain one at a time; weight 0..1000 x {regular, bold, none} and the other threshold scalars densely
+    cover = _built_cases(ctx, 0, [30], 110001, 2, 1, "FontCycleGen cover (exhaustive)", focus="cover")
+    sweep = [c for c in cover if c["cfg"]["group"] == "sweep"]
+    cover = [c for c in cover if c["cfg"]["group"] != "sweep"]
+    missing = set(_GROUP_WRITES) - set(c["cfg"]["group"] for c in cover + sweep)
+    if missing:
+        raise vlib.Infra("FontCycleGen cover lacks the groups %s" % sorted(missing))
     ctx.sample({"tlc_configuration": built[0]})
     # R: abstract table sets
     nt = ctx.pick(300, 4000)
@@ -362,7 +375,7 @@ def run(ctx):
 
     # the harness runs on small chunks in parallel; the traces of a group are validated together
     # (at most 1500 cases per TLC run)
-    groups = [("large", large, 1), ("shapes", shapes, 3), ("layout", layout, 3), ("onefactor", onef, 20), ("built", built, 30), ("tables", tabs, 75), ("bytes", corpus, 100)]
+    groups = [("large", large, 1), ("cover", cover, 6), ("sweep", sweep, 250), ("built", built, 30), ("tables", tabs, 75), ("bytes", corpus, 100)]
     for name, cases, size in groups:
         done = _run_chunks(ctx, binp, cases, d, name, size)
         if name == "built":
@@ -390,7 +403,7 @@ def run(ctx):
                      "real code is not a fixed point on %d" % (agree, len(tabs), sum(1 for c in tabs if c["id"] in badids)))
 
     distinct = set()
-    for c in built + large + layout + onef + shapes:
+    for c in built + large + cover + sweep:
         distinct.add(json.dumps(c["cfg"], sort_keys=True))
     for c in tabs:
         distinct.add(json.dumps(c["tab"], sort_keys=True))
@@ -399,7 +412,7 @@ def run(ctx):
     ctx.cov["distinct_nontrivial"] = len(distinct)
     ctx.cov["rule"] = ("distinct TLC-drawn font configurations + distinct TLC-drawn table sets + distinct byte strings accepted by "
                        "sfnt.Read; each is one five-step cycle with repeated writes; evaluations = recorded events validated by TLC")
-    ctx.cov["cases"] = {"built": len(built) + len(large) + len(layout) + len(onef) + len(shapes), "tables": len(tabs), "bytes": len(corpus), "marked_bad_by_TLC": len(pending)}
+    ctx.cov["cases"] = {"built": len(built) + len(large) + len(cover) + len(sweep), "tables": len(tabs), "bytes": len(corpus), "marked_bad_by_TLC": len(pending)}
     if pending:
         _report(ctx, pending)
 
